@@ -132,7 +132,7 @@ def main():
     voters = [x for x in opt["InitVoters"].split(",") if x]
     extra = [x for x in opt["Node"].split(",") if x and x not in voters]
     w0 = w.split(",")[0]
-    sc = {"name": "atk-" + w0 + opt.get("suffix", ""), "family": family, **({"snap_window": True} if "Env:SnapWindow" in w else {}), **({"heal_keep_down": opt["keepdown"].split(",")} if opt["keepdown"] else {}), "attack": w, "violates": m.group(1), "voters": voters, "extra": extra, "controlled": True, "auto": False,
+    sc = {"name": "atk-" + w0 + opt.get("suffix", ""), "family": family, **({"snap_window": True} if "Env:SnapWindow" in w else {}), **({"member_to_ms": int(opt["member_to_ms"])} if opt.get("member_to_ms") else {}), **({"heal_keep_down": opt["keepdown"].split(",")} if opt["keepdown"] else {}), "attack": w, "violates": m.group(1), "voters": voters, "extra": extra, "controlled": True, "auto": False,
           "heal": True, "heal_et": 60, "spec": steps, **({"tick_ms": 1000, "et_ms": 1000 * int(opt["E"]), "lease_ms": 1000 * int(opt["L"])} if timed else {}),
           "comment": "TLC counterexample (%s, %s) of Raft.tla with W = {%s}; constants %s" % (opt["mode"], m.group(1), w,
                      {k: opt[k] for k in ("Node", "InitVoters", "MaxTerm", "MaxTimer", "MaxAE", "MaxCrash", "MaxHalf", "AsyncKinds") + (("E", "L", "D") if timed else ())})}
